@@ -169,8 +169,23 @@ def build_case(rng, root):
                 made.append((kind, name, tabs, fin, code))
                 if kind == 'lua':
                     put(path, code)
+                elif kind == 'p8' and rng.random() < 0.12:
+                    # a cart without code, as PICO-8 saves it (a sprite or sound library): no __lua__ section at all, or an empty one
+                    shape = rng.choice(('no_lua_section', 'empty_lua_section'))
+                    regions2, _ = carts.random_regions(rng, 'sparse')
+                    put(path, rc.write_p8(regions2, b'', version=rng.choice((8, 33, 41)), final_newline=False,
+                                          omit=('lua',) if shape == 'no_lua_section' else ()))
+                    made[-1] = (kind, name, 0, fin, b'')
+                    code = stored = b''
+                    tabs = 0
+                    feats.add('included_p8_' + shape)
                 elif kind == 'p8':
-                    put(path, rc.write_p8(regions, code, version=8))
+                    if rng.random() < 0.4:
+                        # the included cart in another of the file shapes the format allows (sections reordered / short / with a label)
+                        put(path, rc.write_p8_variant(rng, regions, code, version=8))
+                        feats.add('included_p8_in_variant_shape')
+                    else:
+                        put(path, rc.write_p8(regions, code, version=8))
                     stored = code if code.endswith(b'\n') else code + b'\n'
                 else:
                     if rng.random() < 0.5 and len(code) > 3:
@@ -358,7 +373,7 @@ def gates(m, tier):
               'tab_selector_beyond', 'include_first_line', 'include_last_line', 'adjacent_includes', 'several_includes', 'nested_include_literal',
               'directive_whitespace_variant', 'missing_target', 'png_raw', 'png_compressed', 'includes_0', 'same_target_twice', 'cart_inside_carts_folder', 'name_with_embedded_extension', 'include_inside_block_comment',
               'cart_opened_through_symlinked_directory', 'lua_target_with_high_bytes', 'tab_selector_two_digits', 'cart_opened_as_bare_name_in_cwd',
-              'cart_opened_as_dot_slash_in_cwd', 'cart_opened_as_relative_from_parent', 'line_mentioning_include', 'mentioned_file_exists', 'blank_own_lines', 'selector_after_lua_name'):
+              'cart_opened_as_dot_slash_in_cwd', 'cart_opened_as_relative_from_parent', 'line_mentioning_include', 'mentioned_file_exists', 'blank_own_lines', 'selector_after_lua_name', 'included_p8_no_lua_section', 'included_p8_empty_lua_section', 'included_p8_in_variant_shape'):
         if f.get(k, 0) < 5:
             missed.append('%s seen %d times' % (k, f.get(k, 0)))
     if mon.get('splices_compared', 0) < 200:
